@@ -499,7 +499,11 @@ def parseListVal (s : String) : LL.ListVal :=
       ints := es.filterMap (·.toInt?) }
   | _ => {}
 
-def opBodies (fields : List String) : String :=
+def opBodies (fields0 : List String) : String :=
+  -- optional 8th field: the names of the util predicates the harness calls for real on this certificate
+  let (fields, upNames) := match fields0 with
+    | [a, b, c, d, e, f, g, h] => ([a, b, c, d, e, f, g], if h == "." then [] else h.splitOn ",")
+    | other => (other, [])
   match fields with
   | [bools, ints, strs, lists, exts, times, envS] =>
     -- the environment: what the real external functions answered for the strings of this view
@@ -529,10 +533,17 @@ def opBodies (fields : List String) : String :=
       else if kind == "str" then v.strs.any (·.1 == k) else if kind == "time" then v.times.any (·.1 == k) else v.lists.any (·.1 == k)
     let missing := ((List.range Generated.bodyFieldNames.length).zip Generated.bodyFieldNames).filter (fun p => !have_ p.1 p.2.2)
     if !missing.isEmpty then "missing-field " ++ " ".intercalate (missing.map (·.2.1)) else
-    ",".intercalate (Generated.bodyRules.map (fun r => match r.run env v with
+    let rules := ",".intercalate (Generated.bodyRules.map (fun r => match r.run env v with
       | .panic => "P"
       | .notApplicable => "N"
       | .result s => toString s))
+    let ups := upNames.map (fun n => match Generated.utilPreds.find? (fun p => p.1 == n) with
+      | none => "U"
+      | some p => match LL.evalC env v p.2 with
+        | none => "P"
+        | some true => "1"
+        | some false => "0")
+    if upNames.isEmpty then rules else rules ++ ";" ++ ",".intercalate ups
   | _ => "bad-op"
 
 def step (line : String) : String :=
